@@ -219,5 +219,5 @@ def parsed_inputs(case):
 def slim_case(case):
     """A replayable, explicit copy of a pipeline case (no work directory, no derived state)."""
     keep = ('refs', 'queries', 'ref_text', 'query_text', 'params', 'mode', 'extra_argv', 'qclass', 'truth', 'kind',
-            'gen', 'focus', 'decisions', 'ordinary', 'flavour', 'special', 'mm_seed', 'sched_seed', 'mirror_pairs')
+            'gen', 'focus', 'decisions', 'ordinary', 'flavour', 'special', 'mm_seed', 'sched_seed', 'mirror_pairs', 'pool')
     return {k: case[k] for k in keep if k in case}
